@@ -285,13 +285,17 @@ def suite_swap2(tier, seed):
 
 LIMIT_OPS = ('{"ctorDefault", "ctorCount", "ctorCountVal", "ctorIlist", "destroy", "pushBack", "pushBackRv", "emplaceBack", '
              '"emplace", "insert1", "insert1rv", "insertN", "insertRange", "insertIlist", "appendN", "appendNVal", "appendRange", '
-             '"appendIlist", "assignN", "assignIlist", "resize", "resizeVal", "reserve", "at", "clear", "shrinkToFit", "iterate"}')
+             '"appendIlist", "assignN", "assignIlist", "resize", "resizeVal", "reserve", "at", "clear", "shrinkToFit", "iterate", '
+             '"insertNHuge", "appendNHuge"}')
 
 
 def limit_configs(tier):
     q = [
         ('lim_s2u8_TR', 'TR', 'amcled', [('small', 2, 'u8')], 'dyn'),
         ('lim_vi8_TC', 'TC', 'stdlike', [('vector', 0, 'i8')], 'dyn'),
+        # 32-bit size_type: size() + count does not fit the size type itself
+        ('lim_s2u32_TC', 'TC', 'amc', [('small', 2, 'u32')], 'dyn'),
+        ('lim_vu32_NTR', 'NTR', 'stdlike', [('vector', 0, 'u32')], 'dyn'),
         ('lim_f1_NTR', 'NTR', 'stdlike', [('fixed', 1)], 'fixed'),
         ('lim_f2_TR', 'TR', 'stdlike', [('fixed', 2)], 'fixed'),
         ('lim_f3_NTR', 'NTR', 'stdlike', [('fixed', 3)], 'fixed'),
@@ -324,7 +328,7 @@ def suite_limit(tier, seed):
             else:
                 n = cfg.slots[0][1]['n']
                 params = dict(Vals=[1, 2], MaxLen=n + 1, MaxCnt=2 if tier == 'quick' else 3,
-                              Its=['ptr', 'input'] if tier == 'quick' else ALL_ITS, RLens=[0, 1, 2, 3], Ops='AllOps', WalkLen=300)
+                              Its=['ptr', 'input'] if tier == 'quick' else ALL_ITS, RLens=[0, 1, 2, 3], Ops='AllOps \\cup HugeOps', WalkLen=300)
             jobs.append((cfg, params))
         export_models(d, jobs)
 
@@ -560,6 +564,13 @@ def bigset_script(path, cms, big):
                         f.write(L('eraseKey', v=key))
                         f.write(L('insert', v=key))
                         f.write(L('eraseKey', v=key))
+                # heterogeneous keys equivalent to MANY elements (class v of width w: the elements with (key / mod) / w == v)
+                if n > 0:
+                    for w in sorted(set([2, 6, 16, 2 * n + 2, max(2, n), max(2, n // 2)])):
+                        top = (2 * n - 1) // (2 if cm >= 2 else 1) // w
+                        for v in sorted(set([0, top // 2, top, top + 1])):
+                            for op in ('countC', 'containsC', 'lowerBoundC', 'upperBoundC'):
+                                f.write(L(op, v=v, n=w))
                 if cm in (0, 1) and n > 0:
                     # correct hint at begin() (asc: a key below every element) and at end()
                     lowkey, pos_low = -1, (0 if not desc else n)
@@ -600,13 +611,17 @@ def suite_setfault(tier, seed):
         cfgs1 = [SetCfg('sf_fl_NTR_amcled', 'NTR', 'amcled', [(F, 'Cmp')]),
                  SetCfg('sf_fl_small2_TR', 'TR', 'stdlike', [(F, 'Cmp', 0, None, 'small2')]),
                  SetCfg('sf_sm2_NTR_stdlike', 'NTR', 'stdlike', [(S, 'Cmp', 2)]),
-                 SetCfg('sf_sm2flat_NTR', 'NTR', 'amcled', [(S, 'Cmp', 2, 'flat')])]
+                 SetCfg('sf_sm2flat_NTR', 'NTR', 'amcled', [(S, 'Cmp', 2, 'flat')]),
+                 # element type whose MOVE operations may throw
+                 SetCfg('sf_fl_NTRM_stdlike', 'NTRM', 'stdlike', [(F, 'Cmp')])]
         cfgs2 = [SetCfg('sf_p_fl_NTR', 'NTR', 'stdlike', [(F, 'Cmp')] * 2),
                  SetCfg('sf_p_flx_NTR', 'NTR', 'amcled', [(F, 'Cmp'), (F, 'Cmp2')]),
                  SetCfg('sf_p_sm2_NTR', 'NTR', 'stdlike', [(S, 'Cmp', 2)] * 2)]
         if tier == 'thorough':
             cfgs1 += [SetCfg('sf_fl_TR_withrealloc', 'TR', 'withrealloc', [(F, 'CmpT')]),
-                      SetCfg('sf_sm3_TR_amcled', 'TR', 'amcled', [(S, 'CmpT', 3)])]
+                      SetCfg('sf_sm3_TR_amcled', 'TR', 'amcled', [(S, 'CmpT', 3)]),
+                      SetCfg('sf_sm2_NTRM_stdlike', 'NTRM', 'stdlike', [(S, 'Cmp', 2)]),
+                      SetCfg('sf_sm2flat_NTRM', 'NTRM', 'amcled', [(S, 'Cmp', 2, 'flat')])]
             cfgs2 += [SetCfg('sf_p_smx_NTR', 'NTR', 'amcled', [(S, 'Cmp', 2), (S, 'Cmp2', 3)])]
         p1 = dict(Keys=[0, 1, 2] if tier == 'quick' else [0, 1, 2, 3], Cms=[0, 3], Its=['ptr', 'input'], RLens=[0, 1, 2], MaxLen=3,
                   Ops='SAllOps', WalkLen=300)
@@ -818,14 +833,24 @@ def suite_static(tier, seed):
     return cached_suite('static', tier, seed, compute)
 
 
-C16_COMMON = ('AllOps \\ {"eraseVal", "relocate", "swap2", "ctorFromVector", "popBackVal", "appendN", "appendNVal", "appendRange", '
+C16_COMMON = ('AllOps \\ {"eraseVal", "eraseIf", "relocate", "swap2", "ctorFromVector", "popBackVal", "appendN", "appendNVal", "appendRange", '
               '"appendIlist", "reserveBig"}')
-C16_PAIR = ('{"assignCopy", "assignMove", "swap", "eq", "ne", "lt", "le", "gt", "ge", "ctorCopy", "ctorMove", "destroy", "ctorDefault", '
+C16_PAIR = ('{"assignCopy", "assignMove", "swap", "freeSwap", "eq", "ne", "lt", "le", "gt", "ge", "ctorCopy", "ctorMove", "destroy", "ctorDefault", '
             '"ctorCountVal", "pushBack", "popBack", "clear", "reserve", "shrinkToFit", "assignN", "insert1", "erase1"}')
 C16_EXTRA1 = '{"ctorDefault", "ctorCountVal", "destroy", "pushBack", "popBack", "popBackVal", "appendN", "appendNVal", "appendRange", "appendIlist", "reserve"}'
 C16_EXTRA2 = '{"ctorDefault", "ctorCountVal", "destroy", "pushBack", "popBack", "clear", "reserve", "shrinkToFit", "swap2", "eq"}'
 C16_TYPES = {1: ('vector', 0, 'u32'), 2: ('small', 2, 'u32'), 3: ('fixed', 6), 4: ('vector', 0, 'u32'), 5: ('small', 3, 'u32'),
              6: ('small', 2, 'u32')}     # 6: element larger than a pointer
+
+
+C16S_COMMON = ('{"ctorDefault", "ctorRange", "ctorIlist", "destroy", "insert", "insertRv", "emplace", "insertHint", "insertHintRv", "emplaceHint", '
+               '"insertRange", "insertIlist", "assignIlist", "eraseKey", "erasePos", "eraseRange", "eraseLoop", "clear", "find", "contains", "count", '
+               '"lowerBound", "upperBound", "equalRange", "iterate"}')
+C16S_PAIR = ('{"ctorIlist", "ctorCopy", "ctorMove", "destroy", "insert", "eraseKey", "swap", "assignCopy", "assignMove", "eq", "ne", "lt", "le", '
+             '"gt", "ge", "mergeSame"}')
+C16S_EXTRA = ('{"ctorDefault", "ctorFromVec", "ctorIlist", "destroy", "insert", "eraseKey", "assignVec", "stealVector", "front", "back", "index", '
+              '"at", "reserve", "shrinkToFit"}')
+C16S_TYPES = {1: ('flat', 'Cmp'), 2: ('small', 'Cmp', 2), 3: ('flat', 'Cmp', 0, None, 'small2')}   # 2: C++17 and later only
 
 
 def suite_matrix(tier, seed):
@@ -863,33 +888,67 @@ def suite_matrix(tier, seed):
                         models.append(info)
                 scripts[ty][kind + '_path'] = path
 
+        # the same for the sets (FlatSet in every cell, SmallSet from C++17 on)
+        set_types = [1, 2] if tier == 'quick' else [1, 2, 3]
+        sscripts = {}
+        for ty in set_types:
+            sl = C16S_TYPES[ty]
+            s1 = SetCfg('c16s_t%d' % ty, 'TC', 'amc', [sl])
+            s2 = SetCfg('c16s_p%d' % ty, 'TC', 'amc', [sl, sl])
+            ps_common = dict(Keys=[0, 1, 2, 3], Cms=[0, 3], Its=['ptr', 'input'], RLens=[0, 1, 2], MaxLen=3, Ops=C16S_COMMON, WalkLen=300)
+            ps_pair = dict(Keys=[0, 1, 2], Cms=[0, 1], Its=['ptr'], RLens=[0, 2], MaxLen=3, Ops=C16S_PAIR, WalkLen=300)
+            ps_extra = dict(Keys=[0, 1, 2], Cms=[0, 3], Its=['ptr'], RLens=[0, 1, 2], MaxLen=3, Ops=C16S_EXTRA, WalkLen=300)
+            sscripts[ty] = dict(common=[(s1, ps_common), (s2, ps_pair)], extra=[(s1, ps_extra)] if sl[0] == 'flat' else [])
+        sjobs = [cp for ty in set_types for kind in ('common', 'extra') for cp in sscripts[ty][kind]]
+        suniq = {}
+        for cfg, params in sjobs:
+            suniq.setdefault(json.dumps([cfg.model(), params], sort_keys=True), (cfg, params))
+        vlib.pmap_proc(setpipe.smc_export_job, [(d, cp[0].model(), cp[1], cp[0].name) for cp in suniq.values()], workers=4)
+        for ty in set_types:
+            for kind in ('common', 'extra'):
+                if not sscripts[ty][kind]:
+                    continue
+                path = os.path.join(d, 'c16s_t%d_%s.script' % (ty, kind))
+                with open(path, 'w') as f:
+                    for cfg, params in sscripts[ty][kind]:
+                        md, info = setpipe.smc_export(d, cfg.model(), params, cfg.name)
+                        f.write(open(os.path.join(md, 'walks.script')).read())
+                        models.append(info)
+                sscripts[ty][kind + '_path'] = path
+
         def cellname(cell):
             comp, std, extras, ndebug, opt = cell
             return '%s_%s_%s_%s_%s' % (comp.replace('+', 'p'), std.replace('+', 'p'), 'x' if extras else 'p', 'nd' if ndebug else 'as', opt[1:])
 
         def one(job):
-            cell, ty = job
+            cell, fam, ty = job
             comp, std, extras, ndebug, opt = cell
-            name = 'c16_%s_t%d' % (cellname(cell), ty)
+            isset = fam == 'set'
+            name = ('c16s_%s_t%d' if isset else 'c16_%s_t%d') % (cellname(cell), ty)
             binary = os.path.join(workdir(d, 'bin'), name)
-            defs = ['C16_TYPE=%d' % ty] + (['NDEBUG'] if ndebug else [])
+            defs = [('C16S_TYPE=%d' if isset else 'C16_TYPE=%d') % ty] + (['NDEBUG'] if ndebug else [])
             cmd = [comp, '-std=' + std, opt, '-w', '-I' + os.path.join(vlib.REPO, 'include')] + ['-D' + x for x in defs] + \
-                  (['-DAMC_NONSTD_FEATURES'] if extras else []) + [os.path.join(vlib.HARNESS, 'c16_main.cpp'), '-o', binary]
+                  (['-DAMC_NONSTD_FEATURES'] if extras else []) + [os.path.join(vlib.HARNESS, 'c16s_main.cpp' if isset else 'c16_main.cpp'), '-o', binary]
             rc, out, dt = vlib.run(cmd, timeout=900)
+            tyk = 's%d' % ty if isset else ty
             if rc != 0:
-                return dict(name=name, cell=cell, ty=ty, build_error=out[-1500:])
-            res = dict(name=name, cell=cell, ty=ty, traces={})
+                return dict(name=name, cell=cell, ty=tyk, build_error=out[-1500:])
+            res = dict(name=name, cell=cell, ty=tyk, traces={})
+            sc = sscripts[ty] if isset else scripts[ty]
             for kind in (['common', 'extra'] if extras else ['common']):
+                if kind + '_path' not in sc:
+                    continue
                 trace = os.path.join(workdir(d, 'traces'), '%s_%s.ndjson' % (name, kind))
-                rc2, out2, dt2 = vlib.run([binary, scripts[ty][kind + '_path'], trace], timeout=900)
+                rc2, out2, dt2 = vlib.run([binary, sc[kind + '_path'], trace], timeout=900)
                 if rc2 != 0:
                     res['traces'][kind] = dict(trace=trace, crashed='rc=%d %s' % (rc2, out2[-300:]))
                     continue
-                v = vecpipe.validate_vec(d, trace, '%s_%s' % (name, kind))
+                v = (setpipe.validate_set if isset else vecpipe.validate_vec)(d, trace, '%s_%s' % (name, kind))
                 v['trace'] = trace
                 res['traces'][kind] = v
             return res
-        runs = pmap(one, [(c, t) for c in cells for t in types], workers=8)
+        runs = pmap(one, [(c, 'vec', t) for c in cells for t in types] +
+                    [(c, 'set', t) for c in cells for t in set_types if not (t == 2 and c[1] in ('c++11', 'c++14'))], workers=8)
         # byte-for-byte comparison of the transcripts across cells (config line excluded)
         import hashlib
         results = []
@@ -956,7 +1015,7 @@ def suite_matrix(tier, seed):
                             run_wall=0, script='', stats=dict(ops=nprobes, execs=nprobes, drift=0, skipped=0)))
         for r_ in results:
             r_['mc'] = dict(states=sum(m['states'] for m in models), transitions=sum(m['transitions'] for m in models),
-                            model=dict(module='Vec', note='models of the C16 corpus'), params=dict(cells=len(cells), types=types), ops={}, sample_walk=models[0]['sample_walk'])
+                            model=dict(module='Vec', note='models of the C16 corpus'), params=dict(cells=len(cells), types=types, set_types=set_types), ops={}, sample_walk=models[0]['sample_walk'])
         return dict(results=results)
     return cached_suite('matrix', tier, seed, compute)
 
@@ -1072,7 +1131,7 @@ SUITE_FN = {}
 PROP_SUITES = {
     'C01': ['vec'], 'C02': ['vec', 'swap2', 'fault', 'sets', 'setfault', 'words'], 'C03': ['sets'], 'C04': ['sets'], 'C05': ['vec', 'sets', 'words'],
     'C06': ['vec', 'swap2', 'fault', 'sets', 'setfault'], 'C07': ['vec', 'words'], 'C08': ['limit'], 'C09': ['fault', 'setfault', 'words'],
-    'C10': ['vec'], 'C11': ['sets'], 'C12': ['sets'], 'C13': ['swap2'], 'C14': ['vec', 'swap2', 'sets', 'static'], 'C18': ['vec', 'growth'],
+    'C10': ['vec'], 'C11': ['sets'], 'C12': ['sets'], 'C13': ['swap2'], 'C14': ['vec', 'swap2', 'sets', 'static'], 'C18': ['vec', 'growth', 'swap2'],
     'C19': ['sets', 'bigsets'], 'C20': ['vec', 'sets', 'readers'], 'C15': ['memalgo'], 'C17': ['static'], 'C16': ['matrix'],
 }
 
